@@ -301,3 +301,20 @@ def nontrivial(r, obs, events):
 
 def describe(p):
     return ["kind=" + p["kind"], "end=" + p["end"], "manual" if p["manual"] else "sync", "subs=%d" % len(p["subs"])]
+
+
+def extra(stats, tier, seed):
+    """Directed (shared with C11): under each thread-owning layer a delegate whose shutdown() raises - the layer is shut down all the same and its worker
+    thread must still exit (`Each executor's worker thread exits after shutdown()`), not stay parked for ever."""
+    import drive
+    import p_c11
+    known_patterns = set(k["pattern"] for k in drive.load_known(PROP))
+
+    def viol(what, pattern, detail=None):
+        v = {"what": what, "pattern": pattern, "detail": detail, "case": {"params": {}, "chooser": "none", "cseed": 0, "origin": "directed"}}
+        if pattern in known_patterns:
+            stats.known.setdefault(pattern, v)
+        else:
+            stats.violations.append(v)
+    p_c11.faulty_delegate_checks(stats, tier, seed, viol, hang_pattern="reclaim:thread-alive:faulty-delegate-shutdown",
+                                 alive_pattern="reclaim:thread-alive:faulty-delegate-shutdown", other_pattern="reclaim:after-failed-delegate-shutdown")
